@@ -19,6 +19,18 @@ package spy
 // Publish: per subscriber (one loop iteration; old() = head of the iteration) the message
 // is sent iff the subscriber matches, the bytes are the published ones, no other channel is
 // touched; and every send made while the subscription mutex is held must be non-blocking.
+// subsMu guards the subscription table: it is read and written only under the mutex, its
+// entries are non-nil whenever the mutex is free, and what one critical section saw of it is
+// not relied upon in a later one (handlers register and remove themselves concurrently).
+//@ monitor (s *spyServer) subsMu()
+//@   modifies spyServer.subs, map[string]*subscription
+//@   invariant [table] s.subs != nil && (forall k in dom(s.subs) :: s.subs[k] != nil && allocated(s.subs[k]))
+// rely / guarantee: a critical section adds only subscription objects it allocated itself
+// (guarantee, an obligation at every release), so between two critical sections of a handler
+// its own subscription object stays where the handler put it (rely, assumed on re-acquisition)
+//@   rely [own-objects-stay-put] forall k in dom(s.subs) :: mine(s.subs[k]) ==> old(indom(s.subs, k)) && old(s.subs[k]) == s.subs[k]
+//@   guarantee [stores-only-own-objects] forall k in dom(s.subs) :: (!old(indom(s.subs, k)) || old(s.subs[k]) != s.subs[k]) ==> mine(s.subs[k])
+
 //@ func (s *spyServer) Publish(vaaBytes []byte) (err error)
 //@   props C20
 //@   requires s != nil && s.subs != nil && (forall k in dom(s.subs) :: s.subs[k] != nil)
